@@ -84,13 +84,13 @@ JOBS.update({
         wall_quick=55, wall_thorough=1200,
         assumptions=["the harness keeps its own belief of who holds each resource from the return values alone and compares it with the holder/in-use/available/held-by queries and the process's own list after every event"]),
     "C06": dict(level="fault_enumeration", rule=PROCS_RULE,
-        jobs=procs_jobs("C06", ["mix=res,faults=1", "mix=pool,faults=1", "mix=buf,faults=1", "mix=oq,faults=1", "mix=pq,faults=1", "mix=all,faults=2"], 400000, 16000000, crowd_mix="mix=all,faults=1,crowd=1", sweep_mixes=["mix=res", "mix=pool", "mix=buf", "mix=oq", "mix=pq"])
-             + [J("hheap", "rel", 40000, 800000, cfg="cmp=1", only="C02")],
+        jobs=procs_jobs("C06", ["mix=res,faults=1", "mix=pool,faults=1", "mix=buf,faults=1", "mix=oq,faults=1", "mix=pq,faults=1", "mix=all,faults=2"], 400000, 16000000, crowd_mix="mix=all,faults=1,crowd=1", sweep_mixes=["mix=res", "mix=pool", "mix=buf", "mix=oq", "mix=pq"]),
         wall_quick=55, wall_thorough=1200,
         assumptions=["judges wake-ups, not completion of a multi-step get/put (a woken waiter that finds nothing re-queues with a new entry time by design)",
                      "equal (priority, entry time) is left unordered; waiters whose priority was changed, or that ran, in the event of the grant are not compared",
                      "conditions are excluded here (each waiter has its own predicate; see C13)",
-                     "the waiting-list comparator is additionally certified as a heap order on stand-alone heaps (hheap engine, cmp=1)"]),
+                     "a waiter that stays in a list without running must keep its waiting-since time, and whoever enters a list does so with the current time",
+                     "that the waiting-list comparator is a heap order at all is certified by C02 (hheap engine, comparator taken from a freshly initialised guard)"]),
     "C07": dict(level="fault_enumeration", rule=PROCS_RULE,
         jobs=procs_jobs("C07", ["mix=pool,faults=0", "mix=pool,faults=1", "mix=pool,faults=2", "mix=all,faults=2"], 900000, 24000000, crowd_mix="mix=pool,faults=2,crowd=1"),
         wall_quick=55, wall_thorough=1200,
